@@ -101,6 +101,7 @@ LITERALS = {
     "LNone1": (None, 1),
     "L4": ("a", "b", "c", "d"),
     "L5": ("a", "b", "c", "d", "e"),
+    "LbigT": (0, True, "a", "b", "c", "d"),      # set-backed AND typed (0/True) lookup
 }
 
 ENUMS = {"Color": Color, "Num": Num, "StrE": StrE}
@@ -440,7 +441,9 @@ A0 = [
     const(()), const((1,)), const((1, 2)),
     Datum("{}", lambda: {}), Datum("{'a': 1}", lambda: {"a": 1}), Datum("{0: 1, 1: 2}", lambda: {0: 1, 1: 2}),
     Datum("{0: 1}", lambda: {0: 1}), Datum("{1, 2}", lambda: {1, 2}), const(frozenset()),
-    const(Decimal("1")), const(Decimal("NaN"), "Decimal(NaN)"), const(Fraction(1, 2)), const(1j),
+    const(Decimal("1")), const(Decimal("NaN"), "Decimal(NaN)"), const(Decimal("sNaN"), "Decimal(sNaN)"),
+    const(Decimal("Infinity"), "Decimal(Infinity)"), const(Decimal("1E+30"), "Decimal(1E+30)"),
+    const(Fraction(1, 2)), const(1j),
     const(_OBJ, "object()"),
     Datum("iter([1, 2])", lambda: iter([1, 2]), one_shot=True, tags={"iterator"}),
     Datum("iter(['a'])", lambda: iter(["a"]), one_shot=True, tags={"iterator"}),
